@@ -18,7 +18,7 @@ FREE = ['Ky-', 'ri-e', 'e', 'le', 'p', 'f', 'mf', 'cresc.', 'V7', 'I', '1 2', 'c
 # text that is not in Unicode normal form, compatibility characters, combining sequences, bidi/zero-width characters
 UNICODE = ['e\u0301', 'n\u0303o', 'u\u0308ber', '\u212b', '\u2126', 'a\u0323\u0308', 'a\u0308\u0323', '\ufb01n', '\u00e9', 'I\u0307', '\u1e9e', 'x\u200by', '\u00a0', 'A\u030a',
            '\u0041\u0300', '\uff21', '\u2160', 'c\u0327a', '\u1100\u1161', '\u0958']
-DAMAGED = ['4zz#', '4c@', '*clefG2x', '=1@', '4', '#c4', 'c4', '4c  4e', '=x', '*k[f#', '*M4', '*M/4', '*clef', '4cc##--', '*MMx', '*xywh-1:1,2,3', '4c 4', 'r4', '8..', '**', '***', '*xywh-1:10,20,300', '*xywh-1,10,20,300,400', '*xywh-12:10,20;300,400', '*xywh-1', '8rL 8G', '16r 16r[', '4rL', '-ri-']
+DAMAGED = ['4zz#', '4c@', '*clefG2x', '=1@', '4', '#c4', 'c4', '4c  4e', '=x', '*k[f#', '*M4', '*M/4', '*clef', '4cc##--', '*MMx', '*xywh-1:1,2,3', '4c 4', 'r4', '8..', '**', '***', '*xywh-1:10,20,300', '*xywh-1,10,20,300,400', '*xywh-12:10,20;300,400', '*xywh-1', '8rL 8G', '16r 16r[', '4rL', '-ri-', ' 4zz', '4zz  ', '4zz  4e', '4zz\u00a04e', '4zz\u20094e', '  ', '*color:red', '*arpeg', '*MM=120', '*cresc']
 DYNAMICS_LIKE = ['p', 'f', 'mf', 'I', 'V7', '1', '4e', 'do', 'e', 'c', 'r', 'Ky-', '4c', 'a', '2', 'ff']
 ALL = NOTES + STRUCT + SIGS + CONTEXT + BARS + EMPTY + VISUAL + NONVISUAL + BBOX + FREE + UNICODE + DAMAGED
 GROUPS = {'notes': NOTES, 'structural': STRUCT, 'signatures': SIGS, 'contextual': CONTEXT, 'barlines': BARS, 'empty': EMPTY, 'visual': VISUAL,
